@@ -27,6 +27,26 @@ theorem write_eq_model (w id : Bytes) (desc : Option Bytes) (seq qual : Bytes) :
       Res.ok (.ok (), w ++ writeFastqRec { id := id, desc := desc, seq := seq, qual := qual }) := by
   cases desc <;> simp [Gen.SrcFastq.write, writeFastqRec]
 
+/-- **`Writer::write_record`** = `write` on the record's accessors (`seq()` / `qual()` trim the end: the identity on records as
+the reader builds them) -/
+theorem writeRecord_eq_model (tr : Bytes → Bytes) (w : Bytes) (r : FqRec) (hs : tr r.seq = r.seq) (hq : tr r.qual = r.qual) :
+    Gen.SrcFastq.writeRecord writeAllOp tr w r.id r.desc r.seq r.qual = Res.ok (.ok (), w ++ writeFastqRec r) := by
+  cases r with
+  | mk i d sq q =>
+    have h := write_eq_model w i d sq q
+    simp only at hs hq
+    cases d <;>
+      simp [Gen.SrcFastq.writeRecord, Gen.SrcFastq.recordId, Gen.SrcFastq.recordDesc, Gen.SrcFastq.recordSeq,
+        Gen.SrcFastq.recordQual, hs, hq] at h ⊢ <;>
+      simp [h]
+
+/-- **constructors**: `Reader::from_bufread` (empty line buffer), `Reader::records`, `Writer::from_bufwriter` -/
+theorem ctors_eq {ρ ω : Type} (b : ρ) (l : Bytes) (w : ω) :
+    Gen.SrcFastq.readerFromBufread b = Res.ok (b, []) ∧
+    Gen.SrcFastq.readerRecords b l = Res.ok (b, l) ∧
+    Gen.SrcFastq.writerFromBufwriter w = Res.ok w := by
+  simp [Gen.SrcFastq.readerFromBufread, Gen.SrcFastq.readerRecords, Gen.SrcFastq.writerFromBufwriter]
+
 /-! ## `Record::check` -/
 
 /-- **`Record::check`** on a record whose sequence and qualities do not end in white space (what the reader produces:
